@@ -343,6 +343,20 @@ Fixpoint fill_range {A} (l : list A) (lo : nat) (n : nat) (v : A) : list A :=
 
 Definition qd (d : Z * Z) : qpair := (qz (fst d), qz (snd d)).
 
+(* one iteration of the loop of infer_unreferenced_points, for the contour [s, e] *)
+Definition infer_one_contour (m : emap) (coords : list (Z * Z)) (s e : Z) (deltas : list qpair)
+  : outcome (list qpair) :=
+  let n := Z.to_nat (e - s + 1) in
+  let cnt := count_ref m s n in
+  if cnt =? 0 then Ok deltas
+  else if cnt =? 1 then
+    match find_first m s n with
+    | Some (_, d) => Ok (fill_range deltas (Z.to_nat s) n (qd d))
+    | None => Panic
+    end
+  else if cnt =? e - s + 1 then Ok deltas
+  else infer_contour m coords s e deltas.
+
 Fixpoint infer_contours (m : emap) (coords : list (Z * Z)) (begin : Z) (endpts : list Z)
                         (deltas : list qpair) : outcome (list qpair) :=
   match endpts with
@@ -351,18 +365,8 @@ Fixpoint infer_contours (m : emap) (coords : list (Z * Z)) (begin : Z) (endpts :
     let s := begin in
     if (e <? s) || (len coords <=? e) then Err BadValue
     else
-      let n := Z.to_nat (e - s + 1) in
-      let cnt := count_ref m s n in
-      if cnt =? 0 then infer_contours m coords (e + 1) rest deltas
-      else if cnt =? 1 then
-        match find_first m s n with
-        | Some (_, d) => infer_contours m coords (e + 1) rest (fill_range deltas (Z.to_nat s) n (qd d))
-        | None => Panic
-        end
-      else if cnt =? e - s + 1 then infer_contours m coords (e + 1) rest deltas
-      else
-        deltas' <- infer_contour m coords s e deltas ;;
-        infer_contours m coords (e + 1) rest deltas'
+      deltas' <- infer_one_contour m coords s e deltas ;;
+      infer_contours m coords (e + 1) rest deltas'
   end.
 
 Definition explicit_region (m : emap) : list qpair :=
